@@ -94,6 +94,20 @@ Theorem c09_position_stable_history_partial : forall ops,
 Proof. exact chain_lemma. Qed.
 Print Assumptions c09_position_stable_history_partial.
 
+(* the extension alone needs less: under hist_guard_light (no clause about
+   duplicate mids, remote descriptions not even required to have distinct mids:
+   only usable remote sections, a codec for every kind at CreateOffer /
+   CreateAnswer, no stale offer or answer applied, a remote side that extends /
+   mirrors) every applied description is an extension of every earlier one.  The
+   duplicate-mid causes only decide whether "the" index of a mid is well defined. *)
+Theorem c09_chain_extends_partial : forall ops,
+  hist_guard_light ops ->
+  forall i j di dj, (i < j)%nat ->
+    nth_error (applied ops) i = Some di -> nth_error (applied ops) j = Some dj ->
+    exists extra, dj = di ++ extra.
+Proof. exact chain_extends_lemma. Qed.
+Print Assumptions c09_chain_extends_partial.
+
 (* (3): a mid CreateOffer gives a transceiver differs from every mid of the
    current and of the pending remote description (while greaterMid does not
    overflow; before the repair of the numbering loop only the current one was
@@ -167,3 +181,19 @@ Example c09_chain_nontrivial :
   hist_guard ex_chain /\
   map (@List.length _) (applied ex_chain) = [4; 4; 4; 5; 5; 5; 8; 8]%nat.
 Proof. exact ex_chain_ok. Qed.
+
+(* the stale clauses of the guard are needed: pion accepts an offer created
+   before an exchange and applied after it, and an answer created for an earlier
+   remote offer; neither extends what was applied before (the chain guard is false
+   exactly at the stale SetLocalDescription).  Both histories are replayed on the
+   real code (corpus); the oracle sets such histories aside. *)
+Example c09_chain_guard_stale_offer :
+  applied ex_stale_offer = [[Some "v"]; [Some "v"]; [Some "0"]] /\
+  map (fun e => match e with (s, g, o) => chain_guardb s g o end) (gtrace ex_stale_offer) =
+    [true; true; true; true; true; false].
+Proof. exact ex_stale_offer_applied. Qed.
+Example c09_chain_guard_stale_answer :
+  applied ex_stale_answer = [[Some "a"]; [Some "a"]; [Some "a"; Some "b"]; [Some "a"]] /\
+  map (fun e => match e with (s, g, o) => chain_guardb s g o end) (gtrace ex_stale_answer) =
+    [true; true; true; true; false].
+Proof. exact ex_stale_answer_applied. Qed.
